@@ -43,6 +43,9 @@ def gen_harness(facts, outdir):
     sinks = [h for h, v in facts["visitor"].items() if v["pure"]]
     w("hooks.def", "".join("HOOK(%s)\n" % h for h in hooks if h not in sinks))
     w("sinks.def", "".join("SINK(%s)\n" % h for h in sinks))
+    hk = [h for h in hooks if h not in sinks]
+    for k in range(8):          # the zoo dump visitor is compiled in 8 slices
+        w("hooks_part_%d.def" % k, "".join("HOOK(%s)\n" % h for i, h in enumerate(hk) if i % 8 == k))
     def cq(x):
         return '"' + x.replace("\\", "\\\\").replace('"', '\\"') + '"'
     w("specwords.def", "".join("SPECWORD(%s)\n" % cq(x) for x in facts["words"]["std_specifiers"]["rows"]))
